@@ -29,7 +29,7 @@ var seams = map[string]rule{
 		"os":                             {"mcverif/vfs", "os"},
 		"sigs.k8s.io/release-utils/util": {"mcverif/vfs/vutil", "util"},
 	}},
-	"sync": {pkgs: []string{"pkg/reader", "pkg/writer", "pkg/formats", "pkg/storage"}, imports: map[string][2]string{
+	"sync": {pkgs: []string{"pkg/reader", "pkg/writer", "pkg/formats", "pkg/storage", "pkg/sbom"}, imports: map[string][2]string{
 		"sync":        {"mcverif/vsync", "sync"},
 		"sync/atomic": {"mcverif/vsync/vatomic", "atomic"},
 	}},
@@ -86,8 +86,8 @@ func main() {
 		for _, pkg := range r.pkgs {
 			files, _ := filepath.Glob(filepath.Join(repo, pkg, "*.go"))
 			for _, f := range files {
-				if strings.HasSuffix(f, "_test.go") {
-					continue
+				if strings.HasSuffix(f, "_test.go") || strings.HasSuffix(f, ".pb.go") {
+					continue // generated protobuf code keeps the real sync package (descriptor initialisation)
 				}
 				src := f
 				if prev, ok := overlay[f]; ok {
